@@ -102,6 +102,23 @@ def run(ctx):
             behs.append(ctor_trace(S, S0, R, Lkv, X, n + 1, family='sampled %d names' % n, naming=rnd.choice(['int', 'str', 'tuple', 'mixed', 'obj', 'objmix']),
                                    lstyle=rnd.choice(['set', 'list', 'frozenset']), shuf=rnd.randrange(1 << 30),
                                    args=rnd.choice(['full', 'full', 'none-if-empty'])))
+    # clustered structures with 5-8 states: a kept part that is total on its own and a dropped part whose states have their
+    # successors among the dropped ones (the induced relation on V is total only as a whole, not state by state in any order)
+    for _ in range(1500 if q else 30000):
+        a, b = rnd.choice([3, 3, 4, 5]), rnd.choice([2, 2, 3])
+        n = a + b
+        A, B = list(range(a)), list(range(a, n))
+        R = {(A[i], A[(i + 1) % a]) for i in range(a)} | {(B[i], B[(i + 1) % b]) for i in range(b)}
+        R |= {(x, y) for x in A for y in A if rnd.random() < 0.2} | {(x, y) for x in B for y in B if rnd.random() < 0.3}
+        R |= {(rnd.choice(A), rnd.choice(B)) for _i in range(rnd.choice([1, 1, 2]))}
+        if rnd.random() < 0.3:
+            R.add((rnd.choice(B), rnd.choice(A)))
+        X = list(A) if rnd.random() < 0.6 else [v for v in range(n) if rnd.random() < 0.65]
+        if rnd.random() < 0.2:
+            X = list(B)
+        Lkv = [[k, sorted(x for x in 'pq' if rnd.random() < 0.5)] for k in range(n) if rnd.random() < 0.7]
+        behs.append(ctor_trace(list(range(n)), [v for v in range(n) if rnd.random() < 0.3], [list(e) for e in sorted(R)], Lkv, X, n + 1,
+                               family='clustered 5-8 states', naming=rnd.choice(['int', 'str', 'tuple', 'obj']), lstyle='set', shuf=rnd.randrange(1 << 30)))
     sim = graphfam.simulate(ctx, 'MC_KripkeLib.tla', 'KripkeLib_sim.cfg', 500 if q else 10000, 40, ctx.seed + 3)
     seen = set()
     for calls in sim:
